@@ -170,7 +170,8 @@ def getattr_(ex, o, name):
                 from . import contracts as _C
 
                 if isinstance(m_, _C.Callback):
-                    return ex.cfg.fresh(ex, m_, name)
+                    cbv = ex.cfg.fresh(ex, m_, name)
+                    return Bound(cbv, o) if getattr(m_, 'with_self', False) else cbv
                 return Bound(m_, o)
             if name == '__class__':
                 return ho.cls
@@ -193,6 +194,8 @@ def getattr_(ex, o, name):
             if ho.model is not None and name in ho.model.fields:
                 raise Unsupported(f'field {name} of {ho.cls.__name__ if ho.cls else "?"} read before initialisation')
             ex.raise_(AttributeError, name)
+        if name == 'maxlen' and isinstance(ho, LObj) and ho.flavor == 'deque':
+            return ho.maxlen
         return Bound(name, o)
     if isinstance(o, Sym):
         return Bound(name, o)
@@ -522,6 +525,17 @@ def list_method(ex, ref, ho, name, args, kwargs):
             return ex.alloc(LObj(out, flavor='set'))
         raise Unsupported(f'set.{name} on a set with symbolic members')
     if name == 'append':
+        if ho.maxlen is not None:
+            # collections.deque(maxlen=n).append on a full deque discards the item at the left end
+            if ho.maxlen == 0:
+                return None
+            if ho.items is not None:
+                if len(ho.items) >= ho.maxlen:
+                    del w().items[0]
+            elif ex.branch(mk_bool(z3.Length(ho.sym.t) >= ho.maxlen)):
+                s_ = ho.sym.t
+                w().sym = Sym(z3.simplify(z3.Extract(s_, 1, z3.Length(s_) - 1)), ho.sym.k)
+                ho = ex.obj(ref)
         if ho.items is not None:
             w().items.append(args[0])
         else:
@@ -1340,6 +1354,8 @@ def m_set(ex, *args):
 
 def m_enumerate(ex, it, start=0):
     items = ex.concrete_iter(it)
+    if items is None and ex.skeleton and isinstance(it, Unknown):
+        return Unknown('enumerate')
     if items is None:
         raise Unsupported('enumerate over symbolic iterable')
     return ConcIter([(start + i, x) for i, x in enumerate(items)])
@@ -1347,6 +1363,8 @@ def m_enumerate(ex, it, start=0):
 
 def m_zip(ex, *its, **kw):
     lists = [ex.concrete_iter(i) for i in its]
+    if ex.skeleton and any(isinstance(i, Unknown) for i in its):
+        return Unknown('zip')
     if any(l is None for l in lists):
         if kw:
             raise Unsupported('zip(strict=) over symbolic iterable')
@@ -1528,10 +1546,12 @@ CLASS_MODELS[map] = m_map
 
 
 def m_deque(ex, *args, **kw):
-    if kw.get('maxlen') is not None:
-        raise Unsupported('deque(maxlen)')
+    maxlen = M.plain(kw.get('maxlen'))
+    if maxlen is not None and (not isinstance(maxlen, int) or args):
+        raise Unsupported('deque(iterable, maxlen) / symbolic maxlen')
     r = m_list(ex, *args)
     ex.wobj(r).flavor = 'deque'
+    ex.wobj(r).maxlen = maxlen
     return r
 
 
